@@ -8,6 +8,7 @@ import (
 	"fmt"
 	"math"
 	"math/big"
+	"os"
 	"reflect"
 	"regexp"
 	"strconv"
@@ -267,8 +268,9 @@ func methodGrid() []MethodCase {
 	// .decimal(p,s)
 	// (the int32 limits themselves are in range as integers, so they reach the precision / scale
 	// check and its non-suppressible error; one beyond is not an integer argument at all)
-	precs := []int64{1, 2, 3, 6, 15, 16, 38, 1000, 0, 1001, -1, 2147483648, 2147483647, -2147483648}
-	scales := []int64{-1000, -2, -1, 0, 1, 2, 15, 308, 400, 1000, 1001, -1001, 2147483648, -2147483649, 2147483647, -2147483648}
+	// (4294967301 = 2^32 + 5, 4294967298 = 2^32 + 2: not integers in range, whatever their low 32 bits spell)
+	precs := []int64{1, 2, 3, 6, 15, 16, 38, 1000, 0, 1001, -1, 2147483648, 2147483647, -2147483648, 4294967301, 4294967296}
+	scales := []int64{-1000, -2, -1, 0, 1, 2, 15, 308, 400, 1000, 1001, -1001, 2147483648, -2147483649, 2147483647, -2147483648, 4294967298, -4294967295}
 	for _, n := range []string{"0", "1", "-1", "0.5", "1.5", "2.5", "9.99", "99.5", "100", "101", "12345.678", "1e308", "5e-324", "0.05", "-0.05", "1e21", "0.001", "999.999", "-999.995", "1e-7", "123456789012345678", "0.1", "5", "50", "0.04", "0.06"} {
 		for _, p := range precs {
 			out = append(out, MethodCase{Chain: fmt.Sprintf(".decimal(%d)", p), Value: Operand{"f64", n}})
@@ -749,6 +751,9 @@ func TestC16(t *testing.T) {
 	_ = ev.quirk("keyvalue_id_equidistant_collision") // prints the KNOWN-FINDING line while the finding reproduces
 	_ = ev.quirk("keyvalue_ids_via_variable_follow_vars_map")
 	t.Run("long_items", func(t *testing.T) {
+		if os.Getenv("VERIF_ARCH32") != "" {
+			t.Skip("million-digit texts are converted by math/big, slowly on a 32-bit build; the regular pass covers them")
+		}
 		b := ev.enum(t)
 		var cs []LongItemCase
 		for _, z := range []int{1000, 1000001} {
